@@ -355,3 +355,34 @@ Proof.
       replace (p_node (add_use (scale (atotal dm (p_node x)) r) x)) with (p_node x) by reflexivity.
       rewrite Hnet. apply sub_add_net.
 Qed.
+
+(* ---- C10 for create: the usage invariant survives, whatever the fault position ---- *)
+Lemma rsum_app : forall a b, rsum (a ++ b) = radd (rsum a) (rsum b).
+Proof.
+  induction a as [|x t IH]; intros b; simpl.
+  - destruct (rsum b) as [u v]. unfold radd, rzero; simpl. f_equal; lia.
+  - rewrite IH. destruct x as [x1 x2], (rsum t) as [t1 t2], (rsum b) as [b1 b2]. unfold radd; simpl. f_equal; lia.
+Qed.
+
+Lemma sum_on_app : forall a b n, sum_on (a ++ b) n = radd (sum_on a n) (sum_on b n).
+Proof. intros. unfold sum_on. rewrite filter_app, map_app. apply rsum_app. Qed.
+
+Lemma sum_on_created : forall pod r cr n, (forall p, In p cr -> snd p = r) ->
+  sum_on (map (wl_of pod) cr) n = scale (length (filter (fun p => Nat.eqb (wi_node (fst p)) n) cr)) r.
+Proof.
+  intros pod r cr n H. unfold sum_on. induction cr as [|p t IH]; simpl; [reflexivity|].
+  destruct (Nat.eqb (wi_node (fst p)) n); simpl.
+  - rewrite (H p (or_introl eq_refl)). f_equal. apply IH. intros q Hq. apply H. right; auto.
+  - apply IH. intros q Hq. apply H. right; auto.
+Qed.
+
+Theorem create_keeps_usage : forall opi pod r plan w k, create_hyp w opi r plan -> use_ok w ->
+  use_ok (fst (fst (crunk (create opi pod r plan) w k))).
+Proof.
+  intros opi pod r plan w k Hhyp Hok.
+  destruct (create_spec opi pod r plan w k Hhyp) as [w' [k' [ms [H P]]]]. rewrite H. cbn [fst].
+  destruct P as [_ _ _ _ Hw _ Hpl _ Hcr].
+  intros p' Hp'. rewrite Hpl in Hp'. apply in_map_iff in Hp'. destruct Hp' as [x [<- Hx]].
+  cbn [add_use p_use p_node]. rewrite Hw, sum_on_app. rewrite (Hok x Hx).
+  rewrite (sum_on_created pod r); [reflexivity|]. intros p Hp. apply (Hcr p Hp).
+Qed.
